@@ -183,30 +183,6 @@ Definition integrate (E : env) (w : work) (ptask : option N) (s : state) : list 
   let '(ns, s2) := match w_streams w with [] => ([], s1) | ss => add_streams ss ptask s1 end in
   (nr, ns, s2).
 
-(* ---------------------------------------------------------------- _prune_empty_groups *)
-(* result: non-empty groups (appended to acc), group nodes, out-of-fuel flag *)
-Fixpoint prune (fuel : nat) (gs : list N) (acc : list N) (gn : list (N * gnode)) (bad : bool)
-  : list N * list (N * gnode) * bool :=
-  match fuel with
-  | O => (acc, gn, match gs with [] => bad | _ => true end)
-  | S f =>
-    fold_left (fun (st : list N * list (N * gnode) * bool) g =>
-      let '(acc, gn, bad) := st in
-      match aget g gn with
-      | Some n =>
-          match gn_pending n with
-          | O => prune f (gn_children n) acc (adel g gn) bad
-          | S _ => (acc ++ [g], gn, bad)
-          end
-      | None => st
-      end) gs (acc, gn, bad)
-  end.
-
-Definition prune_groups (gs : list N) (s : state) : list N * state :=
-  let '(ne, gn, bad) := prune (S (length (gnodes s))) gs [] (gnodes s) false in
-  let s1 := set_gnodes gn s in
-  (ne, if bad then set_oof s1 else s1).
-
 (* ---------------------------------------------------------------- _remove_task / _remove_group *)
 Definition remove_task (E : env) (t : N) (s : state) : state :=
   let gn := fold_left (fun gn g =>
@@ -234,19 +210,62 @@ Fixpoint remove_group (fuel : nat) (E : env) (g : N) (n : gnode) (s : state) : s
 Definition remove_group_top (E : env) (g : N) (n : gnode) (s : state) : state :=
   remove_group (S (length (gnodes s))) E g n s.
 
+(* ---------------------------------------------------------------- _collect_completed_tasks *)
+(* values (identified by their tasks) and child streams of the completed tasks of a group node;
+   the tasks are removed from the graph *)
+Definition collect_completed (E : env) (n : gnode) (acc : list N * list N * state)
+  : list N * list N * state :=
+  fold_left (fun (st : list N * list N * state) t =>
+    let '(vals, nss, s) := st in
+    match aget t (tnodes s) with
+    | Some tn => ((if tn_done tn then vals ++ [t] else vals), nss ++ tn_streams tn, remove_task E t s)
+    | None => st
+    end) (gn_tasks n) acc.
+
+(* ---------------------------------------------------------------- _prune_empty_groups *)
+(* REPAIRED: a pruned group that has child groups and still holds completed tasks (shared with
+   another pending group, value not delivered yet) hands these values and streams to the finishing
+   parent ([flush] = called from _finish_group_success) before its children are promoted; the code
+   promotes the children without delivering them.
+   result: non-empty groups, values, streams, state *)
+Fixpoint prune (fuel : nat) (E : env) (flush : bool) (gs : list N)
+  (acc : list N * list N * list N * state) : list N * list N * list N * state :=
+  match fuel with
+  | O => match gs with
+         | [] => acc
+         | _ => let '(ne, vals, nss, s) := acc in (ne, vals, nss, set_oof s)
+         end
+  | S f =>
+    fold_left (fun (st : list N * list N * list N * state) g =>
+      let '(ne, vals, nss, s) := st in
+      match aget g (gnodes s) with
+      | Some n =>
+          match gn_pending n with
+          | O =>
+              let s1 := set_gnodes (adel g (gnodes s)) s in
+              let '(vals1, nss1, s2) :=
+                match flush, gn_children n with
+                | true, _ :: _ => collect_completed E n (vals, nss, s1)
+                | _, _ => (vals, nss, s1)
+                end in
+              prune f E flush (gn_children n) (ne, vals1, nss1, s2)
+          | S _ => (ne ++ [g], vals, nss, s)
+          end
+      | None => st
+      end) gs acc
+  end.
+
+Definition prune_groups (E : env) (gs : list N) (s : state) : list N * state :=
+  let '(ne, _, _, s1) := prune (S (length (gnodes s))) E false gs ([], [], [], s) in (ne, s1).
+
 (* ---------------------------------------------------------------- _finish_group_success *)
 (* events, promoted groups, promoted streams, state *)
 Definition finish_group_success (E : env) (g : N) (n : gnode) (s : state)
   : list wqevent * list N * list N * state :=
   let s1 := set_gnodes (adel g (gnodes s)) s in
-  let '(vals, nss, s2) :=
-    fold_left (fun (st : list N * list N * state) t =>
-      let '(vals, nss, s) := st in
-      match aget t (tnodes s) with
-      | Some tn => ((if tn_done tn then vals ++ [t] else vals), nss ++ tn_streams tn, remove_task E t s)
-      | None => st
-      end) (gn_tasks n) ([], [], s1) in
-  let '(ngs, s3) := prune_groups (gn_children n) s2 in
+  let '(vals0, nss0, s2) := collect_completed E n ([], [], s1) in
+  let '(ngs, vals, nss, s3) :=
+    prune (S (length (gnodes s2))) E true (gn_children n) ([], vals0, nss0, s2) in
   let s4 := set_roots (sdel g (roots s3)) s3 in
   ((match vals with [] => [] | _ => [GroupValues g vals] end) ++ [GroupSuccess g ngs nss], ngs, nss, s4).
 
@@ -306,7 +325,7 @@ Definition stream_items (E : env) (x : N) (n : nat) (stop : bool) (s : state) : 
     fold_left (fun (st : list N * list N * state) w =>
       let '(ngs, nss, s) := st in
       let '(ig, is_, s1) := integrate E w None s in
-      let '(ne, s2) := prune_groups ig s1 in
+      let '(ne, s2) := prune_groups E ig s1 in
       (ngs ++ ne, nss ++ is_, start_new_work ne is_ s2)) items ([], [], s0) in
   let ev := StreamValues x pos (length items) ngs nss in
   if stop then ([ev; StreamSuccess x], set_rstreams (sdel x (rstreams s1)) s1)
@@ -330,7 +349,7 @@ Definition step (E : env) (s : state) (e : gevent) : state * list wqevent :=
 (* WorkQueue(work) followed by the first step of events(): initial groups, initial streams, state *)
 Definition init (E : env) (w : work) : list N * list N * state :=
   let '(ng, ns, s1) := integrate E w None empty_state in
-  let '(ne, s2) := prune_groups ng s1 in
+  let '(ne, s2) := prune_groups E ng s1 in
   let s3 := set_rstreams ns (set_roots ne s2) in
   let s4 := fold_left (fun s g => start_group g s) ne s3 in
   (ne, ns, fold_left (fun s x => start_stream x s) ns s4).
